@@ -59,7 +59,7 @@ def _py_includes():
 def _digest(spec, root):
     h = hashlib.sha256()
     h.update(json.dumps(spec, sort_keys=True).encode())
-    h.update(b"v6")
+    h.update(b"v7")
     paths = [os.path.join(root, spec["path"])]
     for d in spec["inc"]:
         dd = os.path.join(root, d)
@@ -75,6 +75,62 @@ def _digest(spec, root):
         except OSError:
             raise AnalysisError("source file %s missing" % p)
     return h.hexdigest()[:24]
+
+
+def file_scope_names(src):
+    """names of free functions and of classes/structs DEFINED at file or namespace scope in a C/C++ source text (brace-depth scan over
+    the text with comments and literals removed): local helpers and helper classes a translation unit may grow"""
+    import re
+    src = re.sub(r"/\*.*?\*/", " ", src, flags=re.S)
+    src = re.sub(r"//[^\n]*", " ", src)
+    src = re.sub(r'"(?:\\.|[^"\\\n])*"', '""', src)
+    src = re.sub(r"'(?:\\.|[^'\\\n])*'", "''", src)
+    src = re.sub(r"^[ \t]*#[^\n]*(?:\\\n[^\n]*)*", " ", src, flags=re.M)
+    out = []
+    stack = []          # 'ns' | 'class' | 'fn' | 'other'
+    start = 0           # start of the current declaration text
+    i, n = 0, len(src)
+    while i < n:
+        c = src[i]
+        if c == "{":
+            head = src[start:i]
+            kind = "other"
+            if all(k == "ns" for k in stack):
+                h = head.strip()
+                m = re.search(r"\b(class|struct)\s+([A-Za-z_]\w*)\b[^;(){}]*$", h)
+                if re.search(r"\bnamespace\b[^;(){}]*$", h) or re.search(r'\bextern\s*""\s*$', h):
+                    kind = "ns"
+                elif m and "(" not in h[m.start():]:
+                    kind = "class"
+                    out.append(m.group(2))
+                elif ")" in h and not re.search(r"\b(enum|union)\b[^()]*$", h):
+                    # function definition: the identifier before the first parenthesis at depth 0
+                    depth = 0
+                    first = None
+                    for j, ch in enumerate(h):
+                        if ch == "(":
+                            if depth == 0 and first is None:
+                                first = j
+                            depth += 1
+                        elif ch == ")":
+                            depth -= 1
+                    if first is not None:
+                        mm = re.search(r"([A-Za-z_~][\w:~]*)\s*$", h[:first])
+                        if mm and "=" not in h[:first]:
+                            kind = "fn"
+                            nm = mm.group(1)
+                            if "::" not in nm and not nm.startswith("operator"):
+                                out.append(nm)
+            stack.append(kind)
+            start = i + 1
+        elif c == "}":
+            if stack:
+                stack.pop()
+            start = i + 1
+        elif c == ";":
+            start = i + 1
+        i += 1
+    return list(dict.fromkeys(out))
 
 
 def load_tu(name, root=None, _raw=False):
@@ -106,7 +162,16 @@ def load_tu(name, root=None, _raw=False):
         try:
             src = open(os.path.join(root, spec["path"]), encoding="utf-8", errors="replace").read()
             extra = re.findall(r"^[ \t]*static\s+(?:inline\s+)?[A-Za-z_][\w \t\*:<>,]*?\b([A-Za-z_]\w*)\s*\(", src, re.M)
-            filts = list(filts) + [x for x in dict.fromkeys(extra) if x not in filts and x not in ("if", "for", "while", "switch", "return")]
+            # ... and so are free functions and helper classes that the reviewed baseline does not have (extracted helpers)
+            try:
+                bsrc = open(os.path.join(VERIF, "baseline", spec["path"]), encoding="utf-8", errors="replace").read()
+                known = set(file_scope_names(bsrc))
+            except OSError:
+                known = set()
+            extra += [x for x in file_scope_names(src) if x not in known]
+            extra = [x for x in dict.fromkeys(extra) if x not in ("if", "for", "while", "switch", "return", "main")
+                     and not any(f and f in x for f in filts)]
+            filts = list(filts) + extra[:24]
         except OSError:
             pass
     docs = []
